@@ -117,7 +117,11 @@ func render(items []Item, decls []string, xgo bool) string { return renderP(item
 
 func renderP(items []Item, decls []string, xgo bool, lineTrace bool) string {
 	var b strings.Builder
-	b.WriteString("package main\n\nimport (\n\t\"errors\"\n\t\"fmt\"\n\t\"sort\"\n\t\"strconv\"\n\t\"strings\"\n)\n\nvar _ = errors.New\nvar _ = strconv.Itoa\n")
+	extraImports := ""
+	if lineTrace {
+		extraImports = "\t\"path/filepath\"\n\t\"runtime\"\n"
+	}
+	b.WriteString("package main\n\nimport (\n\t\"errors\"\n\t\"fmt\"\n" + extraImports + "\t\"sort\"\n\t\"strconv\"\n\t\"strings\"\n)\n\nvar _ = errors.New\nvar _ = strconv.Itoa\n")
 	extra := strings.Join(decls, "\n\n")
 	all := extra
 	for _, it := range items {
@@ -129,7 +133,6 @@ func renderP(items []Item, decls []string, xgo bool, lineTrace bool) string {
 	}
 	_ = all
 	if lineTrace {
-		b.WriteString("\nimport (\n\t\"path/filepath\"\n\t\"runtime\"\n)\n")
 		b.WriteString(lineTracePrelude())
 	} else {
 		b.WriteString(prelude)
